@@ -134,8 +134,8 @@ def check_path(res, p, docs, pi, combos=None):
         if sel and len(p[1]) <= 2 and not derive_after_evaluate(res, p, built, d, doc, sel, conc, (pi, di)):
             return
         for n, (combo, (pt, obj)) in enumerate(built.items()):
-            if not sel and n % 8 != 1 and len(built) > 8:
-                continue  # nothing selected: every modifier must give [] / None -- a sixth of the combinations is run
+            if not sel and n % 8 > 1 and len(built) > 8:
+                continue  # nothing selected: every modifier must give [] / None -- the unmodified path and a sixth of the combinations are run
             if not check_case(res, pt, obj, combo, d, doc, sel, conc, (pi, di, combo)):
                 return
 
@@ -230,6 +230,8 @@ def check_case(res, pt, obj, combo, d, doc, sel, conc, key):
             res.violation("empty-selection:%s/%s" % (dat, mul), "%s on %r selects nothing but returned %r / %r"
                           % (T.show(pt), doc, plain, withp), case, observed=(plain, withp), expected=exp)
             return False
+        if dat is None and mul is None and not other_entries_agree(res, pt, obj, d, doc, plain, withp, case):
+            return False
         res.count("validated")
         return True
     single = conc or mul in ("first", "last", "single")
@@ -267,7 +269,46 @@ def check_case(res, pt, obj, combo, d, doc, sel, conc, key):
                           "%s on %r reported path %r for value %r" % (T.show(pt), doc, cp, v), case,
                           observed=withp, expected=want_p)
             return False
+    # (3) the wrapper's own lookups (with a path object, with bare parts) give the same values and the same paths
+    if dat is None and mul is None and not other_entries_agree(res, pt, obj, d, doc, plain, withp, case):
+        return False
     res.count("validated")
     res.count("nontrivial")
     res.outcome((dat, mul, len(plain_l)))
+    return True
+
+
+def _same_out(a, b, with_paths, by_value):
+    cmp = same_value if by_value else same_node
+    def item(x, y):
+        if with_paths:
+            return isinstance(x, tuple) and isinstance(y, tuple) and len(x) == 2 and cmp(x[0], y[0]) and x[1] == y[1] and \
+                all(type(i) is type(j) for i, j in zip(x[1], y[1]))
+        return cmp(x, y)
+    if isinstance(b, list):
+        return isinstance(a, list) and len(a) == len(b) and all(item(x, y) for x, y in zip(a, b))
+    if b is None:
+        return a is None
+    return item(a, b)
+
+
+def other_entries_agree(res, pt, obj, d, doc, plain, withp, case):
+    from valida.data import Data
+    parts = [T.build_part(x) for x in pt[1]]
+    entries = [("Data.get(path)", lambda rp: Data(d).get(obj, return_paths=rp))]
+    if parts:
+        entries.append(("Data.get(*parts)", lambda rp: Data(d).get(*parts, return_paths=rp)))
+    for name, fn in entries:
+        for rp, want in ((False, plain), (True, withp)):
+            res.count("transitions")
+            try:
+                got = fn(rp)
+            except BaseException as e:
+                res.violation("entry-raises:%s:%s" % (name, type(e).__name__), "%s(return_paths=%s) raised %r for %s on %r"
+                              % (name, rp, e, T.show(pt), doc), case, observed=repr(e), expected=want)
+                return False
+            if not _same_out(got, want, rp, by_value=not pt[1]):
+                res.violation("entry-differs:%s:paths=%s" % (name, rp), "%s(return_paths=%s) and get_data disagree for %s on %r"
+                              % (name, rp, T.show(pt), doc), case, observed=got, expected=want)
+                return False
     return True
